@@ -12,6 +12,7 @@ RULE = ("problems with 1-3 nonlinear constraint objects (NonlinearConstraint "
         "counted evaluation; non-trivial = run with >=1 constraint object, >=1 "
         "main-loop iteration and a positive penalty at some evaluation; "
         "distinct = (n, forms, scale, fixed, objective present, step kinds)")
+RULE += ("  Also: the point each objective call is made at is compared with an INDEPENDENT harness map from the solver's internal point (fixed variables inserted, (ub-lb)/2*x+(ub+lb)/2, projection), not with Problem.build_x; NaN / inf faults together with fixed / scaled variables; unit scaling factors with non-zero shifts.")
 ASSUMPTIONS = [
     "an omitted constraint call is legitimate only when the point equals the "
     "previous call point of that function (scipy's one-entry cache)",
